@@ -418,4 +418,330 @@ Section Refine.
       inversion E; subst. cbn [map app]. specialize (HK _ eq_refl). cbn [Kont] in HK.
       eapply FSpec_ev; [|exact HK]. exists 0, 3, 0. intros n _. cbn [Nat.add]. rewrite exec_S, exec_S, cont_S. reflexivity.
   Qed.
+
+  (* ---------------------------------------------------------------- function bodies *)
+  Definition flat (k : mkont) : Prop := forall e, kn k e = f_nxt e.
+
+  Lemma assign_sto x ex r s r' s' : assign x ex (r, s) = (r', s') -> sto s' = sto s.
+  Proof.
+    unfold assign. destruct ex as [v|q|q|f args|items]; try (intros H; inversion H; reflexivity).
+    destruct args; [|intros H; inversion H; reflexivity].
+    destruct (str_eqb f (s_ "variable")); intros H; inversion H; reflexivity.
+  Qed.
+
+  Lemma do_assign_spec x ex g e h :
+    assign x ex (f_env e, mkst h g) = (f_env (do_assign x ex g e h), mkst h (f_nxt (do_assign x ex g e h)))
+    /\ f_fl (do_assign x ex g e h) = f_fl e.
+  Proof.
+    unfold do_assign. destruct (assign x ex (f_env e, mkst h g)) as [r' s'] eqn:A. cbn [f_env f_nxt f_fl].
+    pose proof (assign_sto _ _ _ _ _ _ A) as Hs. cbn [sto mkst] in Hs. split; [|reflexivity].
+    f_equal. destruct s'; cbn in *. subst. reflexivity.
+  Qed.
+
+  Lemma sim_top d : CallOK d -> forall c, top_ok c = true -> forall k, flat k -> SimQ Qt d (tr_list c) (XL d c) k.
+  Proof.
+    intros HC. induction c as [|s rest IH]; intros TO k Fk g0 e h xs kc f' ys rf W E HK.
+    - cbn in E. inversion E; subst. cbn [map app tr_list]. specialize (HK e eq_refl).
+      cbn [Kont] in HK. eapply FSpec_S; [|exact HK]. intros n. reflexivity.
+    - cbn [top_ok forallb] in TO. apply andb_prop in TO as [T1 T2]. fold (top_ok rest) in T2.
+      unfold XL in E. rewrite exec_list_cons in E by exact T1. cbn [tr_list].
+      assert (HNA: noassign s = true -> FSpec (S d) g0 (map snd xs ++ ys) rf (fun n => mexec n d h (CSeq (tr_stmt s) (tr_list rest)) k e)).
+      { intros NA.
+        assert (E': (let '(ys0, k0, f1) := XS d s (f_env e, mkst h (kn k e)) (f_fl e) in
+                     match k0 with
+                     | CNorm => let '(zs, k2, f2) := XL d rest (f_env e, mkst h (kn k e)) f1 in (ys0 ++ zs, k2, f2)
+                     | _ => (ys0, k0, f1) end) = (xs, kc, f')) by (destruct s; try discriminate; exact E).
+        clear E. destruct (XS d s (f_env e, mkst h (kn k e)) (f_fl e)) as [[ys0 k0] f1] eqn:Es.
+        assert (HS: forall ys', (forall e2, Qs e f1 e2 -> Kont g0 d k0 h (KSeq (tr_list rest) k) e2 ys' rf) ->
+                    FSpec (S d) g0 (map snd ys0 ++ ys') rf (fun n => mexec n d h (CSeq (tr_stmt s) (tr_list rest)) k e)).
+        { intros ys' HK'. eapply FSpec_S; [intros n; apply exec_S|]. cbn beta iota.
+          apply (sim_stmt d HC s NA (KSeq (tr_list rest) k) g0 e h ys0 k0 f1 ys' rf W Es HK'). }
+        destruct k0.
+        * destruct (XL d rest (f_env e, mkst h (kn k e)) f1) as [[zs k2] f2] eqn:Er.
+          injection E' as Exs Ekc Ef; subst xs kc f'.
+          rewrite map_app, <- app_assoc. apply HS. intros e2 ->. cbn [Kont].
+          eapply FSpec_S; [intros n; apply cont_S|]. cbn beta iota.
+          apply (IH T2 k Fk g0 (setfl e f1) h zs k2 f2 ys rf W).
+          -- rewrite kn_setfl. exact Er.
+          -- exact HK.
+        * inversion E'; subst. apply HS. intros e2 ->. cbn [Kont]. specialize (HK (setfl e f') eq_refl). cbn [Kont] in HK.
+          eapply FSpec_ev; [|exact HK]. exists 0, 1, 1. intros n _. cbn [Nat.add]. rewrite !exec_S. reflexivity.
+        * inversion E'; subst. apply HS. intros e2 ->. apply (HK (setfl e f') eq_refl).
+        * inversion E'; subst. apply HS. intros e2 ->. apply (HK (setfl e f') eq_refl). }
+      destruct s as [x ex| | | | | |]; try (apply HNA; exact T1). clear HNA.
+      destruct (do_assign_spec x ex (kn (KSeq (tr_list rest) k) e) e h) as [A1 A2].
+        cbn [knxt] in A1, A2. rewrite tr_stmt_eq.
+        eapply FSpec_ev; [exists 0, 3, 0; intros n _; cbn [Nat.add]; rewrite exec_S, exec_S, cont_S; reflexivity|].
+        cbn [knxt].
+        apply (IH T2 k Fk g0 (do_assign x ex (kn k e) e h) h xs kc f' ys rf W).
+      + rewrite (Fk (do_assign x ex (kn k e) e h)). rewrite <- A1, A2. exact E.
+      + exact HK.
+  Qed.
+
+  Definition rend (e : bool) : GenMachine.res := if e then RRaise else RStop.
+
+  Lemma fun_sim d : CallOK d -> forall body r nx h g0 ys kf, wf h -> top_ok body = true ->
+    run_function (J d) assign body (r, mkst h nx) = (ys, kf) ->
+    FSpec (S d) g0 (map snd ys) (rend (match kf with CErr => true | _ => false end))
+          (fun n => mexec n d h (fun_code body) KNil (fr0 r nx)).
+  Proof.
+    intros HC body r nx h g0 ys kf W TO HR. unfold run_function in HR.
+    destruct (IRSem.exec_list (J d) assign body (r, mkst h nx) flags0) as [[ys' k'] f'] eqn:E. inversion HR; subst ys' k'.
+    unfold fun_code.
+    eapply FSpec_ev; [exists 0, 3, 0; intros n _; cbn [Nat.add]; rewrite exec_S, exec_S, cont_S; reflexivity|].
+    rewrite <- (app_nil_r (map snd ys)).
+    apply (one_sim Qt d (tr_list body) KNil (XL d body)) with (kb := kf) (f1 := f').
+    - apply sim_top; auto. intros e. reflexivity.
+    - exact W.
+    - exact E.
+    - intros e2 _. destruct kf; cbn [Kont rend]; auto.
+      + exists 1, h, IDone. intros n L. destruct n as [|n]; [lia|]. reflexivity.
+      + exists 1, h, IDone. intros n L. destruct n as [|n]; [lia|]. reflexivity.
+  Qed.
+
+  (* ---------------------------------------------------------------- builtins *)
+  Lemma kn_nxt k : forall e e', f_nxt e = f_nxt e' -> kn k e = kn k e'.
+  Proof.
+    induction k as [|c k IH|it b k IH]; intros e e' H; cbn [knxt]; auto.
+    destruct it; auto.
+  Qed.
+
+  Lemma loop_yield err (l : list cfg) f :
+    IRSem.loop (fun (s : cfg) f => ([s], CNorm, f)) err l f = (l, if err then CErr else CNorm, f).
+  Proof. induction l as [|x r IH]; cbn [IRSem.loop]; [reflexivity|]. rewrite IH. reflexivity. Qed.
+
+  Lemma map_snd_pair (r : env) (xs : list st) : map snd (map (fun x => (r, x)) xs) = xs.
+  Proof. rewrite map_map. cbn. apply map_id. Qed.
+
+  Lemma kont_end g0 d h e (err : bool) : Kont g0 d (if err then CErr else CNorm) h KNil e [] (rend err).
+  Proof.
+    destruct err; cbn [Kont rend]; auto.
+    exists 1, h, IDone. intros n L. destruct n as [|n]; [lia|]. reflexivity.
+  Qed.
+
+  Lemma for_sim d (ex : nat -> fr -> heap -> iexpr lx callp) (B : mcode) (k : mkont) body :
+    (forall it', Sim d B body (KLoop it' B k)) ->
+    forall g0 e h xs_it err res_xs kc f' ys rf, wf h ->
+      ISpec d h (kn k e) (xs_it, err) h (mkiter mkleaf prog (ex (kn k e) e h) h) ->
+      IRSem.loop body err (map (fun x => (f_env e, x)) xs_it) (f_fl e) = (res_xs, kc, f') ->
+      Kont g0 d kc h k (setfl e f') ys rf ->
+      FSpec (S d) g0 (map snd res_xs ++ ys) rf (fun n => mexec n d h (CFor ex B) k e).
+  Proof.
+    intros HB g0 e h xs_it err res_xs kc f' ys rf W HI HL HK.
+    eapply FSpec_S; [intros n; apply exec_S|]. cbn beta iota.
+    apply (loop_sim d B k body HB g0 xs_it err h (f_env e) W e h _ res_xs kc f' ys rf eq_refl HI HL HK).
+  Qed.
+
+  (* for l in <it>: yield False      (builtin_eq, YP.call's `yield from`) *)
+  Lemma yield_for d (ex : nat -> fr -> heap -> iexpr lx callp) g0 e h xs_it err : wf h ->
+    ISpec d h (f_nxt e) (xs_it, err) h (mkiter mkleaf prog (ex (f_nxt e) e h) h) ->
+    FSpec (S d) g0 xs_it (rend err) (fun n => mexec n d h (CFor ex CYield) KNil e).
+  Proof.
+    intros W HI. rewrite <- (app_nil_r xs_it), <- (map_snd_pair (f_env e) xs_it) at 1.
+    apply (for_sim d ex CYield KNil _ (fun it' => sim_yield d _) g0 e h xs_it err _ _ _ [] (rend err) W HI (loop_yield _ _ _)).
+    apply kont_end.
+  Qed.
+
+  Lemma ispec_call d : CallOK d -> forall goal extra g (e : fr) h, wf h ->
+    ISpec d h g (call_goal (query d ir) goal extra (mkst h g)) h (mkiter mkleaf prog (call_expr goal extra g e h) h).
+  Proof.
+    intros HC goal extra g e h W. unfold call_goal, call_expr. cbn [sto mkst].
+    destruct (den_fast h goal); try apply ispec_raise; cbn [mkiter]; apply HC; exact W.
+  Qed.
+
+  (* for x in <it>: yield x; break       (once/1) *)
+  Lemma sim_yield_break d k : Sim d (CSeq CYield CBreak) (fun s f => ([s], CBrk, f)) k.
+  Proof.
+    intros g0 e h xs kc f' ys rf W E HK. inversion E; subst. cbn [map snd app FSpec].
+    exists 2, (ISusp (KSeq CBreak k) e). cbn [sto nxt mkst it_nxt knxt]. repeat split; auto.
+    - intros n L. destruct n as [|[|n]]; try lia. reflexivity.
+    - specialize (HK _ eq_refl). rewrite setfl_same in HK. cbn [Kont] in HK.
+      eapply FSpec_ev; [|exact HK]. exists 0, 2, 0. intros n _. reflexivity.
+  Qed.
+
+  Lemma once_for d (ex : nat -> fr -> heap -> iexpr lx callp) g0 e h xs_it err : wf h ->
+    ISpec d h (f_nxt e) (xs_it, err) h (mkiter mkleaf prog (ex (f_nxt e) e h) h) ->
+    FSpec (S d) g0 (match xs_it with x :: _ => [x] | [] => [] end)
+          (rend (match xs_it with _ :: _ => false | [] => err end))
+          (fun n => mexec n d h (CFor ex (CSeq CYield CBreak)) KNil e).
+  Proof.
+    intros W HI.
+    assert (HL: IRSem.loop (fun (s : cfg) f => ([s], CBrk, f)) err (map (fun x => (f_env e, x)) xs_it) (f_fl e) =
+                (match xs_it with x :: _ => [(f_env e, x)] | [] => [] end,
+                 (if match xs_it with _ :: _ => false | [] => err end then CErr else CNorm), f_fl e)).
+    { destruct xs_it; reflexivity. }
+    pose proof (for_sim d ex (CSeq CYield CBreak) KNil _ (fun it' => sim_yield_break d _) g0 e h xs_it err _ _ _ []
+                  (rend (match xs_it with _ :: _ => false | [] => err end)) W HI HL (kont_end _ _ _ _ _)) as H.
+    rewrite app_nil_r in H. destruct xs_it; exact H.
+  Qed.
+
+  (* q = self.call(goal); results = [get_value(template) for r in q]      (findall/3) *)
+  Definition collect_all (t : term) (xs : list st) (e : fr) : fr :=
+    fold_left (fun e x => collect t (nxt x) e (sto x)) xs e.
+
+  Lemma findall_loop d t k g0 h0 : wf h0 -> forall xs_it err e hcur itcur ys rf,
+    ISpec d h0 (kn k e) (xs_it, err) hcur itcur ->
+    (if err then ys = [] /\ rf = RRaise
+     else FSpec (S d) g0 ys rf (fun n => mcont n d h0 k (collect_all t xs_it e))) ->
+    FSpec (S d) g0 ys rf (fun n => mloop n d hcur itcur (CAssign (collect t)) k e).
+  Proof.
+    intros W0. induction xs_it as [|x r IH]; intros err e hcur itcur ys rf [HF HI] HK.
+    - cbn [fst snd FSpec] in HF. destruct HF as [N [hf [it' HF]]].
+      destruct (restore_next HI (HF N (le_n N))) as [I' [S' C']].
+      destruct err.
+      + destruct HK as [-> ->]. cbn [FSpec]. exists (S N), (munwind (mclose hf it') k), IDone. intros n L.
+        destruct n as [|n]; [lia|]. rewrite loop_S, (HF n) by lia. reflexivity.
+      + rewrite (S' eq_refl) in HF. cbn [collect_all fold_left] in HK.
+        eapply FSpec_ev; [|exact HK]. exists N, 1, 0. intros n L. cbn [Nat.add]. rewrite loop_S, (HF n) by lia. reflexivity.
+    - cbn [fst snd FSpec] in HF. destruct HF as [N [it' [HF [Gn [Wx HR]]]]].
+      destruct (restore_next HI (HF N (le_n N))) as [I' [_ C']].
+      eapply FSpec_ev; [exists N, 3, 0; intros n L; cbn [Nat.add]; rewrite loop_S, (HF (S (S n))) by lia;
+                         rewrite exec_S, cont_S; reflexivity|].
+      rewrite kn_loop, Gn.
+      apply (IH err (collect t (nxt x) e (sto x)) (sto x) it' ys rf).
+      + split; [|exact I']. rewrite (kn_nxt k _ e) by reflexivity. exact HR.
+      + exact HK.
+  Qed.
+
+  Lemma collect_all_spec t xs : forall e,
+    f_acc (collect_all t xs e) = f_acc e ++ map (fun x => den_fast (sto x) t) xs /\
+    f_aux (collect_all t xs e) = fold_left (fun m x => Nat.max m (nxt x)) xs (f_aux e) /\
+    f_nxt (collect_all t xs e) = f_nxt e.
+  Proof.
+    induction xs as [|x r IH]; intros e; cbn [collect_all fold_left map].
+    - rewrite app_nil_r. auto.
+    - destruct (IH (collect t (nxt x) e (sto x))) as [A [B C]]. fold (collect_all t r (collect t (nxt x) e (sto x))).
+      rewrite A, B, C. cbn [collect f_acc f_aux f_nxt]. rewrite <- app_assoc. auto.
+  Qed.
+
+  Lemma fold_max_from (xs : list st) : forall a,
+    fold_left (fun m x => Nat.max m (nxt x)) xs a = Nat.max a (fold_left (fun m x => Nat.max m (nxt x)) xs 0).
+  Proof.
+    induction xs as [|x r IH]; intros a; cbn [fold_left]; [lia|].
+    rewrite (IH (Nat.max a (nxt x))), (IH (Nat.max 0 (nxt x))). lia.
+  Qed.
+
+  (* \= : the frame of builtin_neq is a function frame for neq_ir *)
+  Lemma neq_run d a b (s : st) :
+    run_function (J d) assign neq_ir ([(s_ "Y", b); (s_ "X", a)], s) =
+    match unify_fast ufuel (sto s) a b with
+    | UOk _ => ([], CNorm)
+    | UFail => ([([(s_ "Y", b); (s_ "X", a)], s)], CNorm)
+    | _ => ([], CErr)
+    end.
+  Proof.
+    unfold run_function, neq_ir. cbn [IRSem.exec_list]. rewrite exec_stmt_eq. cbn [IRSem.exec_list].
+    rewrite exec_stmt_eq.
+    change (J d (IR.ECall (s_ "unify") [EVar (s_ "X"); EVar (s_ "Y")]) ([(s_ "Y", b); (s_ "X", a)], s))
+      with (let '(xs, e) := unify_st s a b in (map (fun x => ([(s_ "Y", b); (s_ "X", a)], x)) xs, e)).
+    unfold unify_st. destruct (unify_fast ufuel (sto s) a b); reflexivity.
+  Qed.
+
+  Lemma skip_spec g0 d h e : FSpec (S d) g0 [] (rend false) (fun n => mexec n d h CSkip KNil e).
+  Proof. exists 2, h, IDone. intros n L. destruct n as [|[|n]]; try lia. reflexivity. Qed.
+
+  Lemma builtin_sim d : CallOK d -> forall name args nx h g0, wf h ->
+    FSpec (S d) g0
+      (fst (match builtin (query d ir) name args (mkst h nx) with Some r => r | None => ([], false) end))
+      (rend (snd (match builtin (query d ir) name args (mkst h nx) with Some r => r | None => ([], false) end)))
+      (fun n => mexec n d h (fst (builtin_code name args)) KNil (fr0 (snd (builtin_code name args)) nx)).
+  Proof.
+    intros HC name args nx h g0 W. unfold builtin, builtin_code.
+    destruct (str_eqb name (s_ "=")).
+    { destruct args as [|a [|b [|c rest]]]; try apply skip_spec. cbn [fst snd].
+      destruct (unify_st (mkst h nx) a b) as [xs err] eqn:U. cbn [fst snd].
+      apply yield_for; auto. cbn [mkiter f_nxt fr0]. rewrite <- U. apply ispec_unify. exact W. }
+    destruct (str_eqb name (s_ "\=")).
+    { destruct args as [|a [|b [|c rest]]]; try apply skip_spec. cbn [fst snd sto mkst].
+      pose proof (neq_run d a b (mkst h nx)) as NR. cbn [sto mkst] in NR.
+      destruct (unify_fast ufuel h a b);
+        apply (fun_sim d HC neq_ir _ nx h g0 _ _ W eq_refl NR). }
+    destruct (str_eqb name (s_ "call")).
+    { destruct args as [|g extra]; cbn [fst snd].
+      - exists 1, h, IDone. intros n L. destruct n as [|n]; [lia|]. reflexivity.
+      - destruct (call_goal (query d ir) g extra (mkst h nx)) as [xs err] eqn:U. cbn [fst snd].
+        apply yield_for; auto. cbn [f_nxt fr0]. rewrite <- U. apply ispec_call; auto. }
+    destruct (str_eqb name (s_ "once")).
+    { destruct args as [|g [|b rest]]; try apply skip_spec. cbn [fst snd].
+      destruct (call_goal (query d ir) g [] (mkst h nx)) as [xs err] eqn:U.
+      pose proof (once_for d (call_expr g []) g0 (fr0 [] nx) h xs err W) as H. cbn [f_nxt fr0] in H.
+      pose proof (ispec_call d HC g [] nx (fr0 [] nx) h W) as HI. rewrite U in HI. specialize (H HI).
+      destruct xs; exact H. }
+    destruct (str_eqb name (s_ "findall")).
+    { destruct args as [|t [|g [|l [|c rest]]]]; try apply skip_spec. cbn [fst snd].
+      destruct (call_goal (query d ir) g [] (mkst h nx)) as [xs err] eqn:U.
+      pose proof (ispec_call d HC g [] nx (fr0 [] nx) h W) as HI. rewrite U in HI.
+      eapply FSpec_ev; [exists 0, 2, 0; intros n _; cbn [Nat.add]; rewrite exec_S, exec_S; reflexivity|].
+      apply (findall_loop d t (KSeq _ KNil) g0 h W xs err (fr0 [] nx) h _ _ _ HI).
+      destruct err; cbn [fst snd rend]; [auto|].
+      destruct (collect_all_spec t xs (fr0 [] nx)) as [A [B C]]. cbn [f_acc f_aux f_nxt fr0 app] in A, B, C.
+      eapply FSpec_ev; [exists 0, 4, 0; intros n _; cbn [Nat.add]; rewrite cont_S, exec_S, exec_S, cont_S; reflexivity|].
+      cbn [knxt].
+      set (ef := collected (f_nxt (collect_all t xs (fr0 [] nx))) (collect_all t xs (fr0 [] nx)) h).
+      assert (En: f_nxt ef = max_nxt (mkst h nx) xs).
+      { unfold ef, collected, max_nxt. cbn [f_nxt nxt mkst]. rewrite C, B. symmetry. apply fold_max_from. }
+      assert (Ea: f_acc ef = map (fun x => den_fast (sto x) t) xs) by (unfold ef, collected; cbn [f_acc]; exact A).
+      destruct (unify_st {| sto := sto (mkst h nx); nxt := max_nxt (mkst h nx) xs |} l
+                  (mk_list (map (fun x => den_fast (sto x) t) xs))) as [ys e2] eqn:U2. cbn [fst snd].
+      apply yield_for; auto. cbn [mkiter]. rewrite Ea, En, <- U2. apply ispec_unify. exact W. }
+    apply skip_spec.
+  Qed.
+
+  (* ---------------------------------------------------------------- the theorem *)
+  Hypothesis OK : ir_ok ir.
+
+  Theorem call_ok : forall d, CallOK d.
+  Proof.
+    induction d as [|d IH]; intros g0 name args nx h W; (split; [|constructor]).
+    - cbn [query fst snd FSpec]. exists 1, h, (m_query ir nofacts nouser name args nx). intros n L.
+      destruct n as [|n]; [lia|]. reflexivity.
+    - eapply FSpec_S; [intros n; unfold m_query; apply inext_S|]. cbn beta iota.
+      cbn [query]. unfold IRMachine.prog, nofacts, nouser.
+      destruct (find_func ir name (length args)) as [f|] eqn:Ef.
+      + destruct (run_function (Machine.iter (query d ir)) assign (fn_body f) (bind_args 0 args, mkst h nx)) as [ys kf] eqn:ER.
+        cbn [fst snd]. apply (fun_sim d IH (fn_body f) _ nx h g0 ys kf W); [|exact ER].
+        apply OK. eapply find_func_in; eauto.
+      + pose proof (builtin_sim d IH name args nx h g0 W) as H.
+        destruct (builtin_code name args) as [c r]. cbn [fst snd] in *. exact H.
+  Qed.
+
+  Notation mnexts := (m_nexts ir nofacts nouser).
+
+  Lemma FSpec_nexts D g0 xs rf : rf <> RYield -> forall h it,
+    FSpec D g0 xs rf (fun n => minext n D h it) ->
+    exists N hf itf, forall n k, N <= n -> length xs < k -> mnexts n D k h it = Some (hf, itf, map sto xs, rf).
+  Proof.
+    intros NY. induction xs as [|x r IH]; intros h it H; cbn [FSpec] in H.
+    - destruct H as [N [hf [it' H]]]. exists N, hf, it'. intros n k L Lk. destruct k as [|k]; [cbn in Lk; lia|].
+      unfold m_nexts. cbn [nexts]. rewrite (H n L). destruct rf; try reflexivity. congruence.
+    - destruct H as [N [it' [H [_ [_ R]]]]]. destruct (IH _ _ R) as [N' [hf [itf HN]]].
+      exists (N + N'), hf, itf. intros n k L Lk. destruct k as [|k]; [cbn in Lk; lia|].
+      unfold m_nexts. cbn [nexts]. rewrite (H n) by lia. unfold m_nexts in HN. rewrite (HN n k) by (cbn in Lk; lia).
+      reflexivity.
+  Qed.
+
+  (* THE REFINEMENT THEOREM: the generator object of a query, resumed (each time under the heap it
+     left) until it ends, yields exactly the answer stores of the big-step semantics, in order,
+     and ends the same way; the heap is then the initial one. *)
+  Theorem machine_refines_irsem d name args nx h : wf h ->
+    exists N itf, forall n k, N <= n -> length (fst (query d ir name args (mkst h nx))) < k ->
+      mnexts n d k h (m_query ir nofacts nouser name args nx) =
+      Some (h, itf, map sto (fst (query d ir name args (mkst h nx))), rend (snd (query d ir name args (mkst h nx)))).
+  Proof.
+    intros W. destruct (call_ok d 0 name args nx h W) as [HF _].
+    assert (NY: rend (snd (query d ir name args (mkst h nx))) <> RYield) by (destruct (snd _); discriminate).
+    destruct (FSpec_nexts d 0 _ _ NY _ _ HF) as [N [hf [itf H]]].
+    exists N, itf. intros n k L Lk. rewrite (H n k L Lk). f_equal. f_equal. f_equal. f_equal.
+    pose proof (H n k L Lk) as Hn. destruct d as [|d].
+    - destruct k as [|k]; [lia|]. unfold m_nexts in Hn. cbn [nexts] in Hn.
+      destruct n as [|n]; [cbn in Hn; discriminate|]. unfold m_query in Hn. rewrite inext_S in Hn. inversion Hn; reflexivity.
+    - destruct (compiled_query_restores ir nofacts nouser _ _ _ _ _ _ _ Hn) as [_ [_ [A _]]]. apply A; [exact NY|discriminate].
+  Qed.
+
+  (* the same with the cell counters: the i-th suspension of the generator object carries the
+     counter of the i-th answer *)
+  Theorem machine_refines_irsem_steps d name args nx h : wf h ->
+    FSpec d 0 (fst (query d ir name args (mkst h nx))) (rend (snd (query d ir name args (mkst h nx))))
+          (fun n => minext n d h (m_query ir nofacts nouser name args nx)).
+  Proof. intros W. apply (call_ok d 0 name args nx h W). Qed.
 End Refine.
